@@ -1,5 +1,238 @@
-(* Proofs/ListProofs.v — under construction *)
-From Coq Require Import List NArith ZArith Bool Lia.
+(* Proofs/ListProofs.v — C14: LIST output reloads to the same program.
+
+   1. Program level: if every stored line's listing text is an edit that
+      stores the same tokens under the same number ([line_roundtrips]), then
+      entering the lines LIST prints into a fresh interpreter yields a program
+      with the same keys, the same tokens per key and the identical listing
+      (reload_store, reload_listing).
+   2. Token level, by computation over the regenerated tables: every keyword /
+      operator / punctuation token is re-read from its canonical spelling, and
+      so is every ordered pair of them that the tokenizer can produce at all,
+      when joined by the single blank LIST puts between tokens
+      (fixed_tokens_roundtrip, fixed_pairs_roundtrip).
+   3. Examples with every literal kind (vm_compute). *)
+From Coq Require Import List NArith ZArith Bool Lia Sorted.
 From Abasic Require Import Model.Bytes Model.Num Model.Token Model.Data Model.Lexer Gen.Tables
-     Model.State Model.Eval Model.Interp Proofs.Monad Proofs.Frames Proofs.StoreProofs.
+     Model.State Model.Eval Model.Interp Proofs.Monad Proofs.Frames Proofs.StoreProofs Proofs.ResetProofs.
 Import ListNotations.
+Local Open Scope N_scope.
+
+(* the text LIST prints for line n (without the final newline the host strips) *)
+Definition listing_line (n : N) (ts : list token) : bytes := show_N n ++ [32] ++ show_listing ts.
+
+Definition line_roundtrips (n : N) (ts : list token) : Prop := edit_of (listing_line n ts) = Some (n, ts).
+
+Definition get_toks (s : interp) (n : N) : list token :=
+  match toks_get n (st_toks s) with Some ts => ts | None => [] end.
+
+Definition listing (s : interp) : list bytes := map (fun n => listing_line n (get_toks s n)) (st_keys s).
+
+(* ------------------------------------------------------------------ *)
+(* sorted key lists with the same members are equal *)
+
+Lemma sorted_same_members (l1 l2 : list N) :
+  keys_sorted l1 -> keys_sorted l2 -> (forall k, In k l1 <-> In k l2) -> l1 = l2.
+Proof.
+  unfold keys_sorted. revert l2. induction l1 as [|a l1 IH]; intros l2 H1 H2 Hm.
+  - destruct l2 as [|b l2]; [reflexivity|]. exfalso. apply (Hm b). left; reflexivity.
+  - destruct l2 as [|b l2]; [exfalso; apply (Hm a); left; reflexivity|].
+    inversion H1 as [|? ? S1 F1]; subst. inversion H2 as [|? ? S2 F2]; subst.
+    rewrite Forall_forall in F1, F2.
+    assert (a = b).
+    { destruct (proj1 (Hm a) (or_introl eq_refl)) as [E|Hin]; [congruence|].
+      destruct (proj2 (Hm b) (or_introl eq_refl)) as [E|Hin']; [congruence|].
+      specialize (F1 _ Hin'). specialize (F2 _ Hin). lia. }
+    subst b. f_equal. apply IH; try assumption.
+    intros k. split; intros Hk.
+    + destruct (proj1 (Hm k) (or_intror Hk)) as [E|H]; [|exact H]. subst k. specialize (F1 _ Hk). lia.
+    + destruct (proj2 (Hm k) (or_intror Hk)) as [E|H]; [|exact H]. subst k. specialize (F2 _ Hk). lia.
+Qed.
+
+(* the listing reads the store through toks_get only *)
+Lemma list_lines_ext keys t1 t2 :
+  (forall k, toks_get k t1 = toks_get k t2) -> list_lines keys t1 = list_lines keys t2.
+Proof.
+  intros H. induction keys as [|n keys IH]; cbn [list_lines]; [reflexivity|].
+  rewrite H, IH. reflexivity.
+Qed.
+
+(* ------------------------------------------------------------------ *)
+(* entering the listing, line by line *)
+
+Lemma step_edit_idle fuel s l n v :
+  state s = Idle -> edit_of l = Some (n, v) -> state (snd (step fuel s (HLine l))) = Idle.
+Proof.
+  intros Hidle He. unfold step, legal. rewrite Hidle. cbn [negb].
+  pose proof (edit_invalidates fuel l (set_reads 0 s) n v Hidle He) as H.
+  destruct (start_evaluating fuel l (set_reads 0 s)) as [r s1].
+  destruct H as (_ & _ & _ & _ & _ & _ & _ & _ & Hst & _).
+  destruct (make_row r (Some l) s1) as [rw s2] eqn:Em. cbn [snd].
+  unfold make_row, take_outputs in Em. inversion Em. exact Hst.
+Qed.
+
+(* the abstract map after entering lines (n, ts) in order *)
+Fixpoint enter_all (m : amap) (l : list (N * list token)) : amap :=
+  match l with [] => m | (n, ts) :: r => enter_all (aupd m n ts) r end.
+
+Lemma spec_run_edits fuel : forall (l : list (N * list token)) s m,
+  state s = Idle -> Forall (fun p => line_roundtrips (fst p) (snd p)) l ->
+  forall k, spec_run fuel s m (map (fun p => HLine (listing_line (fst p) (snd p))) l) k = enter_all m l k.
+Proof.
+  induction l as [|[n ts] l IH]; intros s m Hidle Hall k; cbn [map spec_run enter_all fst snd]; [reflexivity|].
+  inversion Hall as [|? ? Hrt Hall']; subst. cbn [fst snd] in Hrt.
+  assert (Hleg : legal s (HLine (listing_line n ts)) = true) by (unfold legal; rewrite Hidle; reflexivity).
+  rewrite Hleg. cbn [spec_step]. unfold line_roundtrips in Hrt. rewrite Hrt.
+  apply IH; [|exact Hall']. eapply step_edit_idle; eassumption.
+Qed.
+
+Lemma enter_all_notin m l k : ~ In k (map fst l) -> enter_all m l k = m k.
+Proof.
+  revert m. induction l as [|[n ts] l IH]; intros m Hn; cbn [enter_all]; [reflexivity|].
+  rewrite IH by (intros H; apply Hn; right; exact H).
+  unfold aupd. destruct (N.eqb_spec n k); [exfalso; apply Hn; left; exact e|reflexivity].
+Qed.
+
+Lemma enter_all_in m l k ts :
+  NoDup (map fst l) -> In (k, ts) l -> ts <> [] -> enter_all m l k = Some ts.
+Proof.
+  revert m. induction l as [|[n v] l IH]; intros m Hnd Hin Hne; [destruct Hin|].
+  cbn [map fst] in Hnd. inversion Hnd as [|? ? Hnotin Hnd']; subst. cbn [enter_all].
+  destruct Hin as [E|Hin].
+  - inversion E; subst. rewrite enter_all_notin by exact Hnotin.
+    unfold aupd. rewrite N.eqb_refl. destruct ts; [congruence|reflexivity].
+  - apply IH; assumption.
+Qed.
+
+Lemma sorted_NoDup l : keys_sorted l -> NoDup l.
+Proof.
+  unfold keys_sorted. induction 1 as [|a l S IH F]; constructor; [|exact IH].
+  rewrite Forall_forall in F. intros Hin. specialize (F _ Hin). lia.
+Qed.
+
+Definition bindings (s : interp) : list (N * list token) := map (fun n => (n, get_toks s n)) (st_keys s).
+
+Lemma listing_bindings s :
+  map HLine (listing s) = map (fun p => HLine (listing_line (fst p) (snd p))) (bindings s).
+Proof. unfold listing, bindings. rewrite !map_map. reflexivity. Qed.
+
+Lemma bindings_keys s : map fst (bindings s) = st_keys s.
+Proof. unfold bindings. rewrite map_map. cbn [fst]. apply map_id. Qed.
+
+(* Theorem 1: the reloaded program has the same tokens under the same keys *)
+Theorem reload_store fuel oracle s :
+  store_ok s ->
+  (forall n ts, abs s n = Some ts -> line_roundtrips n ts) ->
+  let s' := run_state fuel (fresh oracle) (map HLine (listing s)) in
+  (forall k, abs s' k = abs s k) /\ st_keys s' = st_keys s /\ store_ok s'.
+Proof.
+  intros Hok Hrt s'.
+  destruct Hok as (Hs & Hk & Hne).
+  assert (Hall : Forall (fun p => line_roundtrips (fst p) (snd p)) (bindings s)).
+  { unfold bindings. rewrite Forall_forall. intros [n ts] Hin. apply in_map_iff in Hin as (n' & E & Hin).
+    inversion E; subst. cbn [fst snd]. apply Hrt. unfold abs, get_toks.
+    apply Hk in Hin. destruct (toks_get n (st_toks s)); [reflexivity|congruence]. }
+  assert (Habs : forall k, abs s' k = abs s k).
+  { intros k. subst s'. rewrite (store_refines_spec fuel _ (fresh oracle) aempty) by reflexivity.
+    rewrite listing_bindings, (spec_run_edits fuel (bindings s) (fresh oracle) aempty eq_refl Hall).
+    destruct (abs s k) as [ts|] eqn:E.
+    - apply enter_all_in.
+      + rewrite bindings_keys. apply sorted_NoDup, Hs.
+      + unfold bindings. apply in_map_iff. exists k. unfold get_toks. unfold abs in E. rewrite E.
+        split; [reflexivity|]. apply Hk. unfold abs in E. congruence.
+      + intros ->. apply (Hne k). exact E.
+    - rewrite enter_all_notin; [reflexivity|]. rewrite bindings_keys. intros Hin. apply Hk in Hin.
+      unfold abs in E. congruence. }
+  assert (Hok' : store_ok s') by (apply store_ok_reachable, store_ok_init).
+  split; [exact Habs|]. split; [|exact Hok'].
+  destruct Hok' as (Hs' & Hk' & _).
+  apply sorted_same_members; try assumption.
+  intros k. rewrite Hk', Hk. unfold abs in Habs. rewrite Habs. tauto.
+Qed.
+
+(* Theorem 2: LIST is a fixed point *)
+Theorem reload_listing fuel oracle s :
+  store_ok s ->
+  (forall n ts, abs s n = Some ts -> line_roundtrips n ts) ->
+  let s' := run_state fuel (fresh oracle) (map HLine (listing s)) in
+  list_lines (st_keys s') (st_toks s') = list_lines (st_keys s) (st_toks s)
+  /\ listing s' = listing s.
+Proof.
+  intros Hok Hrt s'. destruct (reload_store fuel oracle s Hok Hrt) as (Habs & Hkeys & _).
+  fold s' in Habs, Hkeys. split.
+  - rewrite Hkeys. apply list_lines_ext. exact Habs.
+  - unfold listing. rewrite Hkeys. apply map_ext. intros n. unfold get_toks.
+    unfold abs in Habs. rewrite Habs. reflexivity.
+Qed.
+
+(* [listing] is what LIST prints *)
+Lemma listing_is_list_output s : store_ok s ->
+  list_lines (st_keys s) (st_toks s) = Ok (map (fun l => l ++ [10]) (listing s)).
+Proof.
+  intros (_ & Hk & _). destruct (list_lines_ok (st_keys s) (st_toks s)) as (ls & Hl & Heq).
+  - intros n Hn. apply Hk, Hn.
+  - rewrite Hl, Heq. unfold listing. rewrite map_map. f_equal. apply map_ext. intros n.
+    unfold listing_line, get_toks. rewrite <- !app_assoc. reflexivity.
+Qed.
+
+(* ------------------------------------------------------------------ *)
+(* 2. The fixed (non-literal) tokens, by computation over Gen/Tables.v *)
+
+Definition fixed_tokens : list token :=
+  map snd keywords ++ map snd punct ++ map (fun x => snd x) two_char.
+
+Definition retok (text : bytes) : option (list token) := tokens_of (tokenize text 0).
+
+Fixpoint tokens_eqb (a b : list token) : bool :=
+  match a, b with
+  | [], [] => true
+  | x :: a', y :: b' => token_eqb x y && tokens_eqb a' b'
+  | _, _ => false
+  end.
+
+Definition opt_tokens_eqb (a : option (list token)) (b : list token) : bool :=
+  match a with Some l => tokens_eqb l b | None => false end.
+
+Definition fixed_token_ok (t : token) : bool := opt_tokens_eqb (retok (show_token t)) [t].
+
+(* a pair the tokenizer can produce at all: adjacent without a blank it reads as that pair *)
+Definition producible (t1 t2 : token) : bool :=
+  opt_tokens_eqb (retok (show_token t1 ++ show_token t2)) [t1; t2].
+
+Definition fixed_pair_ok (t1 t2 : token) : bool :=
+  negb (producible t1 t2) || opt_tokens_eqb (retok (show_token t1 ++ [32] ++ show_token t2)) [t1; t2].
+
+(* every keyword, one-character and two-character token is re-read from its
+   canonical spelling *)
+Theorem fixed_tokens_roundtrip : forallb fixed_token_ok fixed_tokens = true.
+Proof. vm_compute. reflexivity. Qed.
+
+(* every ordered pair of them that can be produced at all is re-read from the
+   two spellings joined by one blank *)
+Theorem fixed_pairs_roundtrip :
+  forallb (fun t1 => forallb (fixed_pair_ok t1) fixed_tokens) fixed_tokens = true.
+Proof. vm_compute. reflexivity. Qed.
+
+Lemma fixed_token_spec t : In t fixed_tokens -> retok (show_token t) = Some [t] \/ exists l, retok (show_token t) = Some l /\ tokens_eqb l [t] = true.
+Proof.
+  intros Hin. pose proof fixed_tokens_roundtrip as H. rewrite forallb_forall in H. specialize (H t Hin).
+  unfold fixed_token_ok, opt_tokens_eqb in H. destruct (retok (show_token t)) as [l|]; [|discriminate].
+  right. exists l. split; [reflexivity|exact H].
+Qed.
+
+(* ------------------------------------------------------------------ *)
+(* 3. Examples: lines with every literal kind round-trip *)
+
+Example ex_line_roundtrips :
+  forallb (fun text =>
+     match edit_of (bs text) with
+     | Some (n, ts) =>
+         match edit_of (listing_line n ts) with
+         | Some (n', ts') => N.eqb n n' && tokens_eqb ts ts'
+         | None => false
+         end
+     | None => false
+     end)
+    ["10 PRINT ""a b"";X$;.5;007;1E5"; "20 REM  x y  "; "30 DATA 1, ""a b"", c, ""q"" : PRINT A.5";
+     "40 IF A<>B THEN GOTO 10 ELSE ?""n"""; "50 FORI=ATOBSTEP-1:NEXTI"; "60 DATA hello ""there"", x";
+     "70 X=12345678901234567890+.000001"]%string = true.
+Proof. vm_compute. reflexivity. Qed.
